@@ -41,9 +41,36 @@ pub fn tags_for(f: &Facts) -> Vec<&'static str> {
     tags
 }
 
+/// a WIDE ontology: a root with 258-300 children and one term below all of them (fan-out and fan-in
+/// beyond 255 and beyond the inline capacity of the id groups), one gene on the bottom term
+fn wide_facts(rng: &mut Rng) -> gen::Facts {
+    let k = rng.range(258, 300) as usize;
+    let ids = gen::gen_ids(rng, k + 2, false, &[]);
+    let (root, bottom, mids) = (ids[0], ids[1], &ids[2..]);
+    let mut f = gen::Facts::default();
+    for id in &ids {
+        f.terms.push(gen::TermF { id: *id, name: format!("t{id}"), obsolete: false, replacement: None });
+    }
+    for m in mids {
+        f.links.push((*m, root));
+        f.links.push((bottom, *m));
+    }
+    f.genes.push(gen::AnnF { id: 7, name: "G".to_string(), terms: vec![bottom] });
+    f
+}
+
 pub fn cases(rng: &mut Rng, count: usize, tier: &str) -> Vec<Case> {
     let mut out = vec![];
     while out.len() < count {
+        if out.len() == 2 {
+            // the third case of every run: the wide ontology, built through the Builder
+            let f = wide_facts(rng);
+            let w = World::Builder(build::script_from_facts(rng, &f, 0));
+            let b = w.build();
+            let obs = world::on_onto(&b, obs_c01);
+            out.push(Case { input: world::winput(&w, f.n_records()), obs, tags: vec!["wide", "builder", "nt"] });
+            continue;
+        }
         let mut o = Opts::default();
         o.max_terms = if tier == "thorough" && rng.chance(1, 10) { 60 } else { 16 };
         o.max_records = 2;
